@@ -19,7 +19,10 @@
 package main
 
 import (
+	"bufio"
+	"bytes"
 	"context"
+	"encoding/json"
 	"errors"
 	"flag"
 	"fmt"
@@ -826,28 +829,55 @@ func cmdReplay(args []string) {
 	j := fl.Int("j", runtime.NumCPU(), "parallelism")
 	shards := fl.Int("shards", 0, "write OUT.shardK.ndjson (round robin) instead of one file")
 	fl.Parse(args)
-	cases, err := run.ReadNDJSON(*in)
+	inf, err := os.Open(*in)
 	if err != nil {
 		die("read cases: %v", err)
 	}
-	rows := make([]N, len(cases))
-	idx := make(chan int, 256)
+	defer inf.Close()
+	sc := bufio.NewScanner(inf)
+	sc.Buffer(make([]byte, 1<<20), 1<<24)
+	var outs []*bufio.Writer
+	var files []*os.File
+	nout := *shards
+	if nout <= 0 {
+		nout = 1
+	}
+	for k := 0; k < nout; k++ {
+		name := *out
+		if *shards > 0 {
+			name = fmt.Sprintf("%s.shard%d.ndjson", *out, k)
+		}
+		f, err := os.Create(name)
+		if err != nil {
+			die("%v", err)
+		}
+		files = append(files, f)
+		outs = append(outs, bufio.NewWriterSize(f, 1<<20))
+	}
+	// rows are processed in batches (bounded memory) by workers that own one temp tree each
+	type job struct {
+		slot int
+		c    N
+	}
+	const batch = 4096
+	res := make([][]byte, batch)
+	jobs := make(chan job, 256)
 	var wg sync.WaitGroup
+	var pending sync.WaitGroup
 	for k := 0; k < *j; k++ {
 		wg.Add(1)
 		go func(k int) {
 			defer wg.Done()
 			var w *world
-			for i := range idx {
-				c := cases[i]
+			for jb := range jobs {
+				c := jb.c
 				p := pathString(c)
-				n := len(segsOf(c["segs"]))
 				r := N{"id": c["id"], "abs": c["abs"], "trail": c["trail"], "segs": segsOf(c["segs"])}
 				cls, _ := c["cls"].(map[string]any)
 				r["rp"] = legResolvePath(p)
 				r["vos"] = legVirtualOS(p)
 				r["mt"] = legMkdirTemp(p)
-				if n <= *fsmax {
+				if len(segsOf(c["segs"])) <= *fsmax {
 					if w == nil {
 						w = newWorld(filepath.Join(*work, fmt.Sprintf("u%d", k)))
 					}
@@ -858,7 +888,12 @@ func cmdReplay(args []string) {
 				if len(cls) > 0 {
 					abstract(r, cls)
 				}
-				rows[i] = r
+				b, err := json.Marshal(r)
+				if err != nil {
+					die("marshal: %v", err)
+				}
+				res[jb.slot] = b
+				pending.Done()
 			}
 			if w != nil {
 				w.closeFDs()
@@ -866,25 +901,44 @@ func cmdReplay(args []string) {
 			}
 		}(k)
 	}
-	for i := range cases {
-		idx <- i
+	total := 0
+	for {
+		n := 0
+		for n < batch && sc.Scan() {
+			line := bytes.TrimSpace(sc.Bytes())
+			if len(line) == 0 {
+				continue
+			}
+			var c N
+			if err := json.Unmarshal(line, &c); err != nil {
+				die("bad case: %v", err)
+			}
+			pending.Add(1)
+			jobs <- job{n, c}
+			n++
+		}
+		pending.Wait()
+		for i := 0; i < n; i++ {
+			w := outs[(total+i)%nout]
+			w.Write(res[i])
+			w.WriteByte('\n')
+			res[i] = nil
+		}
+		total += n
+		if n < batch {
+			break
+		}
 	}
-	close(idx)
+	close(jobs)
 	wg.Wait()
-	if *shards <= 0 {
-		if err := run.WriteNDJSON(*out, rows); err != nil {
-			die("%v", err)
-		}
-		return
+	if err := sc.Err(); err != nil {
+		die("read cases: %v", err)
 	}
-	for k := 0; k < *shards; k++ {
-		part := []N{}
-		for i := k; i < len(rows); i += *shards {
-			part = append(part, rows[i])
-		}
-		if err := run.WriteNDJSON(fmt.Sprintf("%s.shard%d.ndjson", *out, k), part); err != nil {
+	for k := range outs {
+		if err := outs[k].Flush(); err != nil {
 			die("%v", err)
 		}
+		files[k].Close()
 	}
 }
 
